@@ -275,13 +275,29 @@ pub fn run_case(ctx: &Ctx, idx: u64) -> Vec<CaseOut> {
         _ => None,
     };
 
+    // bytes behind the end of the stream: the single-threaded readers leave them alone (LZMA2: the
+    // end marker ends the stream; LZIP: trailing data that is no member), so must the MT readers
+    let trailing = !tiny_ctx && idx >= STEER && r.chance(1, 6);
     match &case.kind {
         Kind::Read2 { .. } => {
-            let (bytes, _spec) = stream.unwrap();
+            let (mut bytes, _spec) = stream.unwrap();
+            let mut kname = kname.clone();
+            if trailing {
+                let n = 1 + r.usize_below(300);
+                bytes.extend(r.bytes(n));
+                kname.push_str("[trailing-data]");
+            }
             run_reader2(ctx, &case, &cell, &kname, bytes, data, &sizes, preset, idx)
         }
         Kind::ReadLzip { .. } => {
-            let (bytes, _spec) = stream.unwrap();
+            let (mut bytes, _spec) = stream.unwrap();
+            let mut kname = kname.clone();
+            if trailing {
+                // zeros: cannot be taken for a member
+                let n = 20 + r.usize_below(40);
+                bytes.extend(std::iter::repeat(0u8).take(n));
+                kname.push_str("[trailing-data]");
+            }
             // sequential model first
             let st = decode_bytes(&Spec { c: Container::Lzip { member: None }, o: o.clone() }, &bytes, 0, &[65536], cap);
             if !st.is_ok() || st.out != data {
